@@ -1,4 +1,5 @@
 import ButlerModel.Model.Join
+import ButlerModel.Model.Spatial
 /-! # C06 — queries relate dimensions exactly as the stored records relate them -/
 namespace C06
 open Join
@@ -82,3 +83,494 @@ example : Sat (fun c => if c = 1 then 7 else 3)
   · exact ⟨fun c => if c = 1 then 7 else 3, by simp, by simp [agreeOnB]⟩
 
 end C06
+
+/-! # C06, spatial part — "when two spatial families meet, exactly the pairs whose regions are not
+disjoint appear … in whatever order the records were inserted, replaced or synchronised"
+
+Theorems about `Model/Spatial.lean`: the post-processing loop with its threaded limit is a filter
+followed by a prefix, whatever the raw page size; every history of insert / skip-existing insert /
+replace / sync calls keeps the overlap table a superset of the envelopes of the *stored* regions
+(and equal to them when `skip_existing` never meets an existing record); under that invariant and the
+one geometric assumption (two regions that are not disjoint share a pixel of their envelopes) the
+query returns exactly the pairs of keys whose stored regions are not disjoint. -/
+namespace C06.Spatial
+open _root_.Spatial
+
+/-! ## paging and the limit -/
+
+def takeLim : Option Nat → List α → List α
+  | none, l => l
+  | some n, l => l.take n
+
+def restLim : Option Nat → Nat → Option Nat
+  | none, _ => none
+  | some n, k => some (n - k)
+
+theorem applyPage_spec (keep : α → Bool) : ∀ (l : List α) (lim : Option Nat),
+    applyPage keep lim l = (takeLim lim (l.filter keep), restLim lim (takeLim lim (l.filter keep)).length) := by
+  intro l
+  induction l with
+  | nil => intro lim; cases lim with
+    | none => simp [applyPage, takeLim, restLim]
+    | some n => cases n <;> simp [applyPage, takeLim, restLim]
+  | cons x xs ih =>
+    intro lim
+    cases lim with
+    | none =>
+      simp only [applyPage, ih none, takeLim, restLim]
+      by_cases h : keep x = true <;> simp [h]
+    | some n =>
+      cases n with
+      | zero => simp [applyPage, takeLim, restLim]
+      | succ n =>
+        by_cases h : keep x = true
+        · simp only [applyPage, h, ↓reduceIte, ih (some n), takeLim, restLim, List.filter_cons, List.take_succ_cons, List.length_cons]
+          congr 2
+          omega
+        · simp only [applyPage, h, Bool.false_eq_true, ↓reduceIte, ih (some (n + 1)), takeLim, restLim, List.filter_cons]
+
+/-- **Paging with a threaded limit = filter, then prefix.** -/
+theorem applyPages_spec (keep : α → Bool) : ∀ (ps : List (List α)) (lim : Option Nat),
+    applyPages keep lim ps = takeLim lim (ps.flatten.filter keep) := by
+  intro ps
+  induction ps with
+  | nil => intro lim; cases lim <;> simp [applyPages, takeLim]
+  | cons p ps ih =>
+    intro lim
+    simp only [applyPages, applyPage_spec, ih, List.flatten_cons, List.filter_append]
+    cases lim with
+    | none => simp [takeLim, restLim]
+    | some n =>
+      simp only [takeLim, restLim, List.take_append, List.length_take]
+      congr 2
+      omega
+
+theorem chunks_flatten (n : Nat) : ∀ (fuel : Nat) (l : List α), l.length ≤ fuel → (chunks n fuel l).flatten = l := by
+  intro fuel
+  induction fuel with
+  | zero => intro l h; have : l = [] := List.eq_nil_of_length_eq_zero (by omega); subst this; simp [chunks]
+  | succ f ih =>
+    intro l h
+    unfold chunks
+    by_cases he : l.isEmpty = true
+    · simp [List.isEmpty_iff.mp he]
+    · simp only [he, Bool.false_eq_true, ↓reduceIte]
+      by_cases hn : (n == 0) = true
+      · simp [hn]
+      · simp only [hn, Bool.false_eq_true, ↓reduceIte, List.flatten_cons]
+        have hpos : 0 < n := by
+          have : n ≠ 0 := by simpa using hn
+          omega
+        have hl : 0 < l.length := by
+          cases l with
+          | nil => simp at he
+          | cons _ _ => simp
+        rw [ih (l.drop n) (by simp only [List.length_drop]; omega), List.take_append_drop]
+
+theorem pages_flatten (n : Nat) (l : List α) : (pagesOf n l).flatten = l := chunks_flatten n _ l (Nat.le_refl _)
+
+/-- **The raw page size is irrelevant**: the query is the filtered candidate list, cut at the limit. -/
+theorem query_eq (g : Geo) (e1 e2 : Elem) (n : Nat) (lim : Option Nat) :
+    query g e1 e2 n lim = takeLim lim ((candidates e1 e2).filter (exact g e1 e2)) := by
+  simp [query, applyPages_spec, pages_flatten]
+
+theorem query_page_size_irrelevant (g : Geo) (e1 e2 : Elem) (n m : Nat) (lim : Option Nat) :
+    query g e1 e2 n lim = query g e1 e2 m lim := by rw [query_eq, query_eq]
+
+/-- a limit returns a prefix of the unlimited result, so `min limit total` rows, all of them right -/
+theorem query_limit_prefix (g : Geo) (e1 e2 : Elem) (n L : Nat) :
+    query g e1 e2 n (some L) = (query g e1 e2 n none).take L := by simp [query_eq, takeLim]
+
+/-- reading a materialised join back gives what the direct query gives -/
+theorem materialize_read_back (g : Geo) (e1 e2 : Elem) (n m : Nat) (lim : Option Nat) :
+    readBack g e1 e2 (materialize e1 e2) n lim = query g e1 e2 m lim := by
+  simp [readBack, materialize, query_eq, applyPages_spec, pages_flatten]
+
+/-! ## the overlap table under every history of record operations -/
+
+def Uniq (e : Elem) : Prop := e.recs.Pairwise (fun a b => a.1 ≠ b.1)
+
+/-- every pixel of the envelope of a *stored* region has its row -/
+def Sound (g : Geo) (e : Elem) : Prop := ∀ k r, (k, some r) ∈ e.recs → ∀ t ∈ g.env r, (k, t) ∈ e.ov
+
+/-- … and there are no other rows -/
+def Exact (g : Geo) (e : Elem) : Prop := ∀ k t, (k, t) ∈ e.ov → ∃ r, (k, some r) ∈ e.recs ∧ t ∈ g.env r
+
+def Inv (g : Geo) (e : Elem) : Prop := Uniq e ∧ Sound g e
+
+theorem hasKey_iff (e : Elem) (k : Nat) : hasKey e k = true ↔ ∃ r, (k, r) ∈ e.recs := by
+  simp only [hasKey, List.any_eq_true, beq_iff_eq]
+  constructor
+  · rintro ⟨⟨k', r⟩, hm, rfl⟩; exact ⟨r, hm⟩
+  · rintro ⟨r, hm⟩; exact ⟨(k, r), hm, rfl⟩
+
+theorem mem_rowsOf (g : Geo) (b : Rec) (k t : Nat) : (k, t) ∈ rowsOf g b ↔ ∃ r, b = (k, some r) ∧ t ∈ g.env r := by
+  obtain ⟨k', r'⟩ := b
+  cases r' with
+  | none => simp [rowsOf]
+  | some r =>
+    simp only [rowsOf, List.mem_map, Prod.mk.injEq, Option.some.injEq]
+    constructor
+    · rintro ⟨t', ht, rfl, rfl⟩; exact ⟨r, ⟨rfl, rfl⟩, ht⟩
+    · rintro ⟨r2, ⟨rfl, rfl⟩, ht⟩; exact ⟨t, ht, rfl, rfl⟩
+
+theorem mem_insertRows (g : Geo) (batch : List Rec) (k t : Nat) :
+    (k, t) ∈ insertRows g batch ↔ ∃ r, (k, some r) ∈ batch ∧ t ∈ g.env r := by
+  simp only [insertRows, List.mem_flatMap, mem_rowsOf]
+  constructor
+  · rintro ⟨b, hb, r, rfl, ht⟩; exact ⟨r, hb, ht⟩
+  · rintro ⟨r, hb, ht⟩; exact ⟨_, hb, r, rfl, ht⟩
+
+theorem distinctKeys_iff : ∀ (b : List Rec), distinctKeys b = true ↔ b.Pairwise (fun a b => a.1 ≠ b.1)
+  | [] => by simp [distinctKeys]
+  | x :: xs => by
+    simp only [distinctKeys, Bool.and_eq_true, Bool.not_eq_true', List.pairwise_cons, distinctKeys_iff xs]
+    constructor
+    · rintro ⟨h1, h2⟩
+      refine ⟨fun a ha heq => ?_, h2⟩
+      have : xs.any (fun y => y.1 == x.1) = true := List.any_eq_true.mpr ⟨a, ha, by simp [heq]⟩
+      simp [this] at h1
+    · rintro ⟨h1, h2⟩
+      refine ⟨?_, h2⟩
+      cases hany : xs.any (fun y => y.1 == x.1) with
+      | false => rfl
+      | true =>
+        obtain ⟨a, ha, heq⟩ := List.any_eq_true.mp hany
+        exact absurd (by simpa using heq : a.1 = x.1).symm (h1 a ha)
+
+/-- what an operation must look like for the model to speak about it: batches written with
+`skip_existing` or `replace` name each key once (the harness never sends others) -/
+def WFOp : Op → Prop
+  | .insert _ => True
+  | .insertSkip batch => distinctKeys batch = true
+  | .replace batch => distinctKeys batch = true
+  | .sync _ _ => True
+
+theorem insert_inv (g : Geo) (e e' : Elem) (batch : List Rec) (h : Spatial.insert g e batch = some e') (hi : Inv g e) : Inv g e' := by
+  unfold Spatial.insert at h
+  split at h
+  · exact absurd h (by simp)
+  · rename_i hc
+    simp only [Bool.or_eq_true, Bool.not_eq_true', not_or, Bool.not_eq_true, Bool.not_eq_false] at hc
+    obtain ⟨hnew, hd⟩ := hc
+    injection h with h
+    subst h
+    refine ⟨?_, ?_⟩
+    · simp only [Uniq]
+      rw [List.pairwise_append]
+      refine ⟨hi.1, (distinctKeys_iff batch).mp hd, fun a ha b hb heq => ?_⟩
+      have : batch.any (fun b => hasKey e b.1) = true :=
+        List.any_eq_true.mpr ⟨b, hb, (hasKey_iff e b.1).mpr ⟨a.2, by rw [← heq]; exact ha⟩⟩
+      simp [this] at hnew
+    · intro k r hm t ht
+      simp only [List.mem_append] at hm ⊢
+      rcases hm with hm | hm
+      · exact Or.inl (hi.2 k r hm t ht)
+      · exact Or.inr ((mem_insertRows g batch k t).mpr ⟨r, hm, ht⟩)
+
+theorem insertSkip_inv (g : Geo) (e : Elem) (batch : List Rec) (hd : distinctKeys batch = true) (hi : Inv g e) :
+    Inv g (insertSkip g e batch) := by
+  refine ⟨?_, ?_⟩
+  · simp only [Uniq, insertSkip]
+    rw [List.pairwise_append]
+    refine ⟨hi.1, ((distinctKeys_iff batch).mp hd).filter _, fun a ha b hb heq => ?_⟩
+    simp only [List.mem_filter, Bool.not_eq_true'] at hb
+    have : hasKey e b.1 = true := (hasKey_iff e b.1).mpr ⟨a.2, by rw [← heq]; exact ha⟩
+    simp [this] at hb
+  · intro k r hm t ht
+    simp only [insertSkip, List.mem_append] at hm ⊢
+    rcases hm with hm | hm
+    · exact Or.inl (hi.2 k r hm t ht)
+    · exact Or.inr ((mem_insertRows g _ k t).mpr ⟨r, hm, ht⟩)
+
+theorem replace_inv (g : Geo) (e : Elem) (batch : List Rec) (hd : distinctKeys batch = true) (hi : Inv g e) :
+    Inv g (replace g e batch) := by
+  refine ⟨?_, ?_⟩
+  · simp only [Uniq, replace]
+    rw [List.pairwise_append]
+    refine ⟨hi.1.filter _, (distinctKeys_iff batch).mp hd, fun a ha b hb heq => ?_⟩
+    simp only [List.mem_filter, Bool.not_eq_true', keysOf] at ha
+    have : (batch.map (·.1)).contains a.1 = true := by
+      simp only [List.contains_eq_mem, List.mem_map, decide_eq_true_eq]
+      exact ⟨b, hb, heq.symm⟩
+    rw [this] at ha
+    exact absurd ha.2 (by simp)
+  · intro k r hm t ht
+    simp only [replace, List.mem_append, List.mem_filter, Bool.not_eq_true'] at hm ⊢
+    rcases hm with ⟨hm, hk⟩ | hm
+    · exact Or.inl ⟨hi.2 k r hm t ht, hk⟩
+    · exact Or.inr ((mem_insertRows g batch k t).mpr ⟨r, hm, ht⟩)
+
+theorem lookup_none (e : Elem) (k : Nat) (h : lookup e k = none) : ∀ r, (k, r) ∉ e.recs := by
+  intro r hm
+  simp only [lookup, Option.map_eq_none_iff, List.find?_eq_none] at h
+  exact h (k, r) hm (by simp)
+
+theorem lookup_some (e : Elem) (k : Nat) (r : Option Nat) (h : lookup e k = some r) : (k, r) ∈ e.recs := by
+  simp only [lookup, Option.map_eq_some_iff] at h
+  obtain ⟨⟨k', r'⟩, hf, rfl⟩ := h
+  have := List.find?_some hf
+  simp only [beq_iff_eq] at this
+  subst this
+  exact List.mem_of_find?_eq_some hf
+
+theorem lookup_of_mem (e : Elem) (hu : Uniq e) (k : Nat) (r : Option Nat) (hm : (k, r) ∈ e.recs) : lookup e k = some r := by
+  cases h : lookup e k with
+  | none => exact absurd hm (lookup_none e k h r)
+  | some r' =>
+    have hm' := lookup_some e k r' h
+    by_cases heq : r' = r
+    · rw [heq]
+    · exfalso
+      -- two entries with the same key in a list with pairwise distinct keys
+      have : ∀ (l : List Rec), l.Pairwise (fun a b => a.1 ≠ b.1) → (k, r) ∈ l → (k, r') ∈ l → r' = r := by
+        intro l hl
+        induction hl with
+        | nil => intro h1; simp at h1
+        | cons hx _ ih =>
+          rename_i x xs
+          intro h1 h2
+          simp only [List.mem_cons] at h1 h2
+          rcases h1 with h1 | h1 <;> rcases h2 with h2 | h2
+          · have := h2.trans h1.symm; injection this
+          · subst h1; exact absurd rfl (hx (k, r') h2)
+          · subst h2; exact absurd rfl (hx (k, r) h1)
+          · exact ih h1 h2
+      exact heq (this e.recs hu hm hm')
+
+theorem sync_inv (g : Geo) (e : Elem) (b : Rec) (u : Bool) (hi : Inv g e) : Inv g (sync g e b u).1 := by
+  unfold sync
+  split
+  · rename_i hnone
+    refine ⟨?_, ?_⟩
+    · simp only [Uniq]
+      rw [List.pairwise_append]
+      refine ⟨hi.1, by simp, fun a ha c hc heq => ?_⟩
+      simp only [List.mem_singleton] at hc
+      subst hc
+      exact lookup_none e c.1 hnone a.2 (by rw [← heq]; exact ha)
+    · intro k r hm t ht
+      simp only [List.mem_append, List.mem_singleton] at hm ⊢
+      rcases hm with hm | hm
+      · exact Or.inl (hi.2 k r hm t ht)
+      · exact Or.inr ((mem_rowsOf g b k t).mpr ⟨r, hm.symm, ht⟩)
+  · rename_i r hsome
+    split
+    · exact hi
+    · split
+      · exact replace_inv g e [b] (by simp [distinctKeys]) hi
+      · exact hi
+
+theorem apply_inv (g : Geo) (e : Elem) (op : Op) (hw : WFOp op) (hi : Inv g e) : Inv g (apply g e op) := by
+  cases op with
+  | insert batch =>
+    simp only [apply]
+    cases h : Spatial.insert g e batch with
+    | none => simpa using hi
+    | some e' => simpa using insert_inv g e e' batch h hi
+  | insertSkip batch => exact insertSkip_inv g e batch hw hi
+  | replace batch =>
+    simp only [apply]
+    split
+    · exact replace_inv g e batch hw hi
+    · exact hi
+  | sync b u => exact sync_inv g e b u hi
+
+theorem inv_empty (g : Geo) : Inv g {} := ⟨List.Pairwise.nil, fun _ _ h => by simp at h⟩
+
+/-- **Every history keeps the overlap table sound**: whatever sequence of (accepted or refused)
+insert / skip-existing / replace / sync calls was made, each pixel of the envelope of every stored
+region has its row. -/
+theorem run_inv (g : Geo) : ∀ (ops : List Op) (e : Elem), (∀ op ∈ ops, WFOp op) → Inv g e → Inv g (run g e ops)
+  | [], _, _, hi => hi
+  | op :: ops, e, hw, hi => by
+    simp only [run, List.foldl_cons]
+    exact run_inv g ops _ (fun o ho => hw o (List.mem_cons_of_mem _ ho)) (apply_inv g e op (hw op (List.mem_cons_self ..)) hi)
+
+/-! ## the query -/
+
+theorem mem_candidates (e1 e2 : Elem) (k1 k2 : Nat) :
+    (k1, k2) ∈ candidates e1 e2 ↔ ∃ t, (k1, t) ∈ e1.ov ∧ (k2, t) ∈ e2.ov := by
+  simp only [candidates, List.mem_eraseDups, List.mem_flatMap, List.mem_map, List.mem_filter, beq_iff_eq, Prod.mk.injEq]
+  constructor
+  · rintro ⟨⟨a, t⟩, h1, ⟨b, t'⟩, ⟨h2, ht⟩, rfl, rfl⟩
+    simp only at ht
+    subst ht
+    exact ⟨t', h1, h2⟩
+  · rintro ⟨t, h1, h2⟩
+    exact ⟨(k1, t), h1, (k2, t), ⟨h2, rfl⟩, rfl, rfl⟩
+
+theorem exact_iff (g : Geo) (e1 e2 : Elem) (h1 : Uniq e1) (h2 : Uniq e2) (p : Nat × Nat) :
+    exact g e1 e2 p = true ↔ ∃ r1 r2, (p.1, some r1) ∈ e1.recs ∧ (p.2, some r2) ∈ e2.recs ∧ g.ovl r1 r2 = true := by
+  constructor
+  · intro h
+    unfold exact exact? at h
+    split at h
+    · rename_i r1 r2 l1 l2
+      exact ⟨r1, r2, lookup_some e1 _ _ l1, lookup_some e2 _ _ l2, by simpa using h⟩
+    · exact absurd h (by simp)
+  · rintro ⟨r1, r2, m1, m2, ho⟩
+    simp [exact, exact?, lookup_of_mem e1 h1 _ _ m1, lookup_of_mem e2 h2 _ _ m2, ho]
+
+/-- the one assumption about geometry: regions that are not disjoint share a pixel of their envelopes
+(the envelope of a region contains every pixel the region touches) -/
+def GeoSound (g : Geo) : Prop := ∀ r r', g.ovl r r' = true → ∃ t, t ∈ g.env r ∧ t ∈ g.env r'
+
+/-- **Exactly the pairs whose stored regions are not disjoint**, for any overlap tables that are sound
+for the stored records — extra rows (left by `skip_existing`) do not matter, the raw page size does
+not matter. -/
+theorem query_exact_pairs (g : Geo) (hg : GeoSound g) (e1 e2 : Elem) (i1 : Inv g e1) (i2 : Inv g e2) (n : Nat) (p : Nat × Nat) :
+    p ∈ query g e1 e2 n none ↔ ∃ r1 r2, (p.1, some r1) ∈ e1.recs ∧ (p.2, some r2) ∈ e2.recs ∧ g.ovl r1 r2 = true := by
+  rw [query_eq]
+  simp only [takeLim, List.mem_filter, exact_iff g e1 e2 i1.1 i2.1]
+  constructor
+  · exact fun h => h.2
+  · rintro ⟨r1, r2, m1, m2, ho⟩
+    refine ⟨?_, r1, r2, m1, m2, ho⟩
+    obtain ⟨t, t1, t2⟩ := hg r1 r2 ho
+    obtain ⟨k1, k2⟩ := p
+    exact (mem_candidates e1 e2 k1 k2).mpr ⟨t, i1.2 k1 r1 m1 t t1, i2.2 k2 r2 m2 t t2⟩
+
+/-- **Whatever the histories**: after any two histories of record operations, from empty tables, the
+query returns exactly the pairs of keys whose *final* regions are not disjoint. -/
+theorem history_query_exact (g : Geo) (hg : GeoSound g) (ops1 ops2 : List Op)
+    (w1 : ∀ op ∈ ops1, WFOp op) (w2 : ∀ op ∈ ops2, WFOp op) (n : Nat) (p : Nat × Nat) :
+    p ∈ query g (run g {} ops1) (run g {} ops2) n none ↔
+      ∃ r1 r2, (p.1, some r1) ∈ (run g {} ops1).recs ∧ (p.2, some r2) ∈ (run g {} ops2).recs ∧ g.ovl r1 r2 = true :=
+  query_exact_pairs g hg _ _ (run_inv g ops1 {} w1 (inv_empty g)) (run_inv g ops2 {} w2 (inv_empty g)) n p
+
+/-- **Insertion order and route are irrelevant**: histories that end with the same records give the
+same answer. -/
+theorem same_records_same_answer (g : Geo) (hg : GeoSound g) (a1 a2 b1 b2 : List Op)
+    (wa1 : ∀ op ∈ a1, WFOp op) (wa2 : ∀ op ∈ a2, WFOp op) (wb1 : ∀ op ∈ b1, WFOp op) (wb2 : ∀ op ∈ b2, WFOp op)
+    (h1 : ∀ x, x ∈ (run g {} a1).recs ↔ x ∈ (run g {} b1).recs) (h2 : ∀ x, x ∈ (run g {} a2).recs ↔ x ∈ (run g {} b2).recs)
+    (n m : Nat) (p : Nat × Nat) :
+    p ∈ query g (run g {} a1) (run g {} a2) n none ↔ p ∈ query g (run g {} b1) (run g {} b2) m none := by
+  rw [history_query_exact g hg a1 a2 wa1 wa2, history_query_exact g hg b1 b2 wb1 wb2]
+  simp only [h1, h2]
+
+/-- with a limit: a prefix of the right pairs, `min limit total` of them -/
+theorem query_limit_sound (g : Geo) (hg : GeoSound g) (e1 e2 : Elem) (i1 : Inv g e1) (i2 : Inv g e2) (n L : Nat) (p : Nat × Nat)
+    (hp : p ∈ query g e1 e2 n (some L)) :
+    ∃ r1 r2, (p.1, some r1) ∈ e1.recs ∧ (p.2, some r2) ∈ e2.recs ∧ g.ovl r1 r2 = true := by
+  rw [query_limit_prefix] at hp
+  exact (query_exact_pairs g hg e1 e2 i1 i2 n p).mp (List.mem_of_mem_take hp)
+
+theorem query_limit_length (g : Geo) (e1 e2 : Elem) (n L : Nat) :
+    (query g e1 e2 n (some L)).length = min L (query g e1 e2 n none).length := by
+  rw [query_limit_prefix, List.length_take]
+
+/-! ## exactness of the overlap table, and how `skip_existing` loses it -/
+
+theorem exact_empty (g : Geo) : Exact g {} := fun _ _ h => by simp at h
+
+theorem insert_exact (g : Geo) (e e' : Elem) (batch : List Rec) (h : Spatial.insert g e batch = some e') (hx : Exact g e) : Exact g e' := by
+  unfold Spatial.insert at h
+  split at h
+  · exact absurd h (by simp)
+  · injection h with h
+    subst h
+    intro k t hm
+    simp only [List.mem_append] at hm ⊢
+    rcases hm with hm | hm
+    · obtain ⟨r, hr, ht⟩ := hx k t hm
+      exact ⟨r, Or.inl hr, ht⟩
+    · obtain ⟨r, hr, ht⟩ := (mem_insertRows g batch k t).mp hm
+      exact ⟨r, Or.inr hr, ht⟩
+
+theorem replace_exact (g : Geo) (e : Elem) (batch : List Rec) (hx : Exact g e) : Exact g (replace g e batch) := by
+  intro k t hm
+  simp only [replace, List.mem_append, List.mem_filter, Bool.not_eq_true'] at hm ⊢
+  rcases hm with ⟨hm, hk⟩ | hm
+  · obtain ⟨r, hr, ht⟩ := hx k t hm
+    exact ⟨r, Or.inl ⟨hr, hk⟩, ht⟩
+  · obtain ⟨r, hr, ht⟩ := (mem_insertRows g batch k t).mp hm
+    exact ⟨r, Or.inr hr, ht⟩
+
+theorem sync_exact (g : Geo) (e : Elem) (b : Rec) (u : Bool) (hx : Exact g e) : Exact g (sync g e b u).1 := by
+  unfold sync
+  split
+  · intro k t hm
+    simp only [List.mem_append, List.mem_singleton] at hm ⊢
+    rcases hm with hm | hm
+    · obtain ⟨r, hr, ht⟩ := hx k t hm
+      exact ⟨r, Or.inl hr, ht⟩
+    · obtain ⟨r, hr, ht⟩ := (mem_rowsOf g b k t).mp hm
+      exact ⟨r, Or.inr hr.symm, ht⟩
+  · split
+    · exact hx
+    · split
+      · exact replace_exact g e [b] hx
+      · exact hx
+
+theorem insertSkip_exact (g : Geo) (e : Elem) (batch : List Rec) (hx : Exact g e) : Exact g (insertSkip g e batch) := by
+  intro k t hm
+  simp only [insertSkip, List.mem_append] at hm ⊢
+  rcases hm with hm | hm
+  · obtain ⟨r, hr, ht⟩ := hx k t hm
+    exact ⟨r, Or.inl hr, ht⟩
+  · obtain ⟨r, hr, ht⟩ := (mem_insertRows g _ k t).mp hm
+    exact ⟨r, Or.inr hr, ht⟩
+
+/-- **Every history keeps the overlap table exact**: its rows are the envelopes of the stored regions
+and nothing else. -/
+theorem run_exact (g : Geo) : ∀ (ops : List Op) (e : Elem), Exact g e → Exact g (run g e ops)
+  | [], _, hx => hx
+  | op :: ops, e, hx => by
+    simp only [run, List.foldl_cons]
+    refine run_exact g ops _ ?_
+    cases op with
+    | insert batch =>
+      simp only [apply]
+      cases h : Spatial.insert g e batch with
+      | none => simpa using hx
+      | some e' => simpa using insert_exact g e e' batch h hx
+    | insertSkip batch => exact insertSkip_exact g e batch hx
+    | replace batch =>
+      simp only [apply]
+      split
+      · exact replace_exact g e batch hx
+      · exact hx
+    | sync b u => exact sync_exact g e b u hx
+
+def demoGeo : Geo := { env := fun r => if r = 1 then [10, 11] else if r = 2 then [11, 12] else [20], ovl := fun a b => (a == b) || (a + b == 3) }
+
+/-- **Post-processing never meets a NULL region**: with exact overlap tables every candidate row has
+both regions, so `m[a].overlaps(m[b])` can be evaluated on every row the SQL part delivers. -/
+theorem no_candidate_without_region (g : Geo) (e1 e2 : Elem) (u1 : Uniq e1) (u2 : Uniq e2) (x1 : Exact g e1) (x2 : Exact g e2) :
+    raises g e1 e2 = false := by
+  cases hr : raises g e1 e2 with
+  | false => rfl
+  | true =>
+    exfalso
+    simp only [raises, List.any_eq_true] at hr
+    obtain ⟨⟨k1, k2⟩, hc, hn⟩ := hr
+    obtain ⟨t, h1, h2⟩ := (mem_candidates e1 e2 k1 k2).mp hc
+    obtain ⟨r1, m1, _⟩ := x1 k1 t h1
+    obtain ⟨r2, m2, _⟩ := x2 k2 t h2
+    simp [exact?, lookup_of_mem e1 u1 _ _ m1, lookup_of_mem e2 u2 _ _ m2] at hn
+
+theorem history_never_raises (g : Geo) (ops1 ops2 : List Op) (w1 : ∀ op ∈ ops1, WFOp op) (w2 : ∀ op ∈ ops2, WFOp op) :
+    raises g (run g {} ops1) (run g {} ops2) = false :=
+  no_candidate_without_region g _ _ (run_inv g ops1 {} w1 (inv_empty g)).1 (run_inv g ops2 {} w2 (inv_empty g)).1
+    (run_exact g ops1 {} (exact_empty g)) (run_exact g ops2 {} (exact_empty g))
+
+/-- Finding C06-a, the code as it was given: `skip_existing` over an existing record with a NULL
+region kept the NULL and *added* the offered region's rows; the next spatial join then delivered a
+candidate without region to the post-processing, which raised. -/
+theorem old_skip_existing_made_queries_raise :
+    let e1 := insertSkipOld demoGeo (run demoGeo {} [.insert [(1, none)]]) [(1, some 1)]
+    let e2 := run demoGeo {} [.insert [(7, some 1)]]
+    e1.recs = [(1, none)] ∧ (1, 10) ∈ e1.ov ∧ ¬ Exact demoGeo e1 ∧ raises demoGeo e1 e2 = true := by
+  refine ⟨by decide, by decide, fun h => ?_, by decide⟩
+  obtain ⟨r, hr, _⟩ := h 1 10 (by decide)
+  have : (1, some r) ∈ [((1 : Nat), (none : Option Nat))] := hr
+  simp at this
+
+/-- non-vacuity: a history whose final tables give a non-trivial answer -/
+example :
+    let e1 := run demoGeo {} [.insert [(1, none), (2, some 1)], .sync (1, some 3) true, .replace [(2, some 2)]]
+    let e2 := run demoGeo {} [.insertSkip [(7, some 1), (8, some 3)], .sync (9, none) false]
+    query demoGeo e1 e2 1 none = [(1, 8), (2, 7)] := by decide
+
+end C06.Spatial
